@@ -1,76 +1,63 @@
 (* C15 — GC safe points never move backwards.  Statements only; proofs in proof/C15_GcProof.v.
+   The model mirrors the code after the two fix: commits in /repo
+     "fix: serialize UpdateGCSafePoint's load-compare-save"                         (gcSafePointLock)
+     "fix: reject service ids that are not a single path element in service GC safe points"  (checkServiceID)
 
    Quantification.  Every label list `ls` is one history and one interleaving: any number of
    UpdateGCSafePoint request threads (LLoad t v ; LSave t o — the request's two storage operations, with
-   the storage outcome Ok / ErrNotApplied / ErrApplied of the save), GetGCSafePoint (LGet),
-   UpdateServiceGCSafePoint (LSvc id ttl safepoint now — one label, it runs under serviceSafePointLock;
-   `now` is an arbitrary input of every call, not even monotone, so expiry of any entry at any moment
-   is covered), REST deletes (LApiDel) and raw entries found in storage (LSeed).
-   `step = step_gen gc_locked`; gc_locked is computed from the regenerated skeleton of
-   UpdateGCSafePoint (false on this tree: no lock around load..save).
-
-   A hypothesis `guarded step G init ls = true` says that every label that fires in the history
-   satisfies G.  The two guards:
-     excl_label  : no UpdateGCSafePoint request loads while another one is between its load and its save
-     clean_label : no service id is cleaned by path.Join onto the cluster key gc/safe_point (e.g. "..")
-   safe_label = both.  The service clauses (2-5) are postconditions of one call from ANY well-formed
-   store (wf_svcs: keys strictly increasing, "gc_worker" text only under gc_worker's key, safe points
-   >= 0), which every history preserves (C15_store_wellformed_always); they therefore hold at every
-   call of every history. *)
+   the storage outcome Ok / ErrNotApplied / ErrApplied of the save; a request that finds the mutex taken is
+   a disabled LLoad), GetGCSafePoint (LGet), UpdateServiceGCSafePoint (LSvc id ttl safepoint now — one
+   label, it runs under serviceSafePointLock; `now` is an arbitrary input of every call, not even monotone,
+   so expiry of any entry at any moment is covered; ids are arbitrary (text, storage key) pairs, including
+   ".." and "x/../gc_worker"), REST deletes (LApiDel) and raw entries found below the service prefix (LSeed).
+   `step = step_gen gc_locked`; gc_locked is computed from the regenerated skeleton of UpdateGCSafePoint
+   (true on this tree).  The service clauses (2-5) are postconditions of one call from ANY well-formed store
+   (wf_svcs: keys strictly increasing, "gc_worker" text only under gc_worker's key, safe points >= 0), which
+   every history preserves (C15_store_wellformed_always); they therefore hold at every call of every history. *)
 From Coq Require Import String.
 From PDV Require Import lib.Base lib.Skel lib.C15_Guard gen.Gen_C15 model.C15_Gc proof.C15_GcProof proof.C15_Skel.
 Local Open Scope Z_scope.
 
-(* ---- clause 1a: the stored cluster GC safe point never decreases (and stays readable) ---- *)
+(* ---- clause 1a: the stored cluster GC safe point never decreases (and stays readable), all interleavings ---- *)
 Definition C15_gc_safe_point_monotone_full : Prop :=
   forall ls l s', step (exec step init ls) l = Some s' ->
     gc_le (gc (sto (exec step init ls))) (gc (sto s')).
 
-Theorem C15_gc_safe_point_monotone_refuted : ~ C15_gc_safe_point_monotone_full.
-Proof. exact gc_monotone_refuted_pf. Qed.
-
-(* each excluded class is necessary on its own *)
-Theorem C15_gc_safe_point_monotone_refuted_by_interleaving : ~ gc_monotone_for clean_guard.
-Proof. exact gc_monotone_needs_exclusion_pf. Qed.
-Theorem C15_gc_safe_point_monotone_refuted_by_path_escape : ~ gc_monotone_for excl_label.
-Proof. exact gc_monotone_needs_clean_ids_pf. Qed.
-
-(* the strongest true statement about the code as it is *)
-Theorem C15_gc_safe_point_monotone_partial :
-  forall ls l s', guarded step safe_label init (ls ++ [l]) = true ->
-    step (exec step init ls) l = Some s' ->
-    gc_le (gc (sto (exec step init ls))) (gc (sto s')).
-Proof. exact (monotone_guarded gc_locked safe_label (safe_label_ok gc_locked)). Qed.
-
-(* the model of fixes/C15_mutex.patch (load..save under a mutex = step_gen true): all interleavings *)
-Theorem C15_gc_safe_point_monotone_with_mutex :
-  forall ls l s', guarded (step_gen true) clean_guard init (ls ++ [l]) = true ->
-    step_gen true (exec (step_gen true) init ls) l = Some s' ->
-    gc_le (gc (sto (exec (step_gen true) init ls))) (gc (sto s')).
-Proof. exact (monotone_guarded true clean_guard clean_guard_ok). Qed.
+Theorem C15_gc_safe_point_monotone : C15_gc_safe_point_monotone_full.
+Proof. exact gc_monotone_pf. Qed.
 
 (* ---- clause 1b: every response is >= every value acknowledged before the request began ---- *)
 Definition C15_response_ge_all_acknowledged_full : Prop :=
   forall ls r before a, In (r, before) (resps (exec step init ls)) -> In a before -> a <= r.
 
-Theorem C15_response_ge_all_acknowledged_refuted : ~ C15_response_ge_all_acknowledged_full.
-Proof. exact response_refuted_pf. Qed.
-
-Theorem C15_response_ge_all_acknowledged_partial :
-  forall ls r before a, guarded step safe_label init ls = true ->
-    In (r, before) (resps (exec step init ls)) -> In a before -> a <= r.
-Proof. exact (responses_guarded gc_locked safe_label (safe_label_ok gc_locked)). Qed.
-
-Theorem C15_response_ge_all_acknowledged_with_mutex :
-  forall ls r before a, guarded (step_gen true) clean_guard init ls = true ->
-    In (r, before) (resps (exec (step_gen true) init ls)) -> In a before -> a <= r.
-Proof. exact (responses_guarded true clean_guard clean_guard_ok). Qed.
+Theorem C15_response_ge_all_acknowledged : C15_response_ge_all_acknowledged_full.
+Proof. exact response_ge_pf. Qed.
 
 (* what is stored bounds everything acknowledged so far *)
-Theorem C15_acknowledged_le_stored_partial :
-  forall ls a, guarded step safe_label init ls = true -> In a (acks (exec step init ls)) ->
+Theorem C15_acknowledged_le_stored :
+  forall ls a, In a (acks (exec step init ls)) ->
     exists g, gc_read (gc (sto (exec step init ls))) = Some g /\ a <= g.
-Proof. exact (acks_le_stored_guarded gc_locked safe_label (safe_label_ok gc_locked)). Qed.
+Proof. exact acks_le_stored_pf. Qed.
+
+(* why the mutex is there: the same model without it (step_gen false = the code before the fix) violates 1a,
+   and stays correct exactly for the schedules in which load..save sections do not overlap *)
+Theorem C15_without_mutex_refuted :
+  ~ (forall ls l s', step_gen false (exec (step_gen false) init ls) l = Some s' ->
+       gc_le (gc (sto (exec (step_gen false) init ls))) (gc (sto s'))).
+Proof. exact without_mutex_refuted_pf. Qed.
+
+Theorem C15_without_mutex_partial :
+  forall ls l s', guarded (step_gen false) excl_label init (ls ++ [l]) = true ->
+    step_gen false (exec (step_gen false) init ls) l = Some s' ->
+    gc_le (gc (sto (exec (step_gen false) init ls))) (gc (sto s')).
+Proof. exact (monotone_guarded false excl_label (excl_ok false)). Qed.
+
+(* the old witness (A loads 5, B loads 5, B saves 20, A saves 10): B's load is now disabled while A is inside *)
+Example C15_old_interleaving_now_serialised :
+  step (exec step init [LLoad 0 5; LSave 0 Ok; LLoad 0 10]) (LLoad 1 20) = None
+  /\ gc (sto (exec step init (w_overlap ++ [LSave 0 Ok]))) = GVal 10
+  /\ resps (exec step init (w_overlap ++ [LSave 0 Ok; LLoad 1 20; LSave 1 Ok; LGet])) = [(20, [20; 10; 5]); (20, [10; 5]); (10, [5]); (5, [])].
+Proof. exact overlap_now_blocked. Qed.
 
 (* ---- the store every history produces is well-formed, so clauses 2-5 apply at every call ---- *)
 Theorem C15_store_wellformed_always :
@@ -92,26 +79,36 @@ Theorem C15_below_min_not_recorded :
       st' = fst (load_min now st) /\ r = resp_of (snd (load_min now st)) now.
 Proof. exact below_min_not_recorded_pf. Qed.
 
-(* ---- clause 4: gc_worker's own entry always exists with unlimited lifetime ---- *)
+(* ---- clause 4: gc_worker's own entry always exists with unlimited lifetime, whatever the id ---- *)
 Definition C15_gc_worker_always_infinite_full : Prop :=
   forall st i ttl sp now st' r, wf_svcs (svcs st) -> gcw_ok (svcs st) -> 0 <= sp -> now <= maxI64 ->
     svc_update st i ttl sp now = (st', Some r) -> gcw_ok (svcs st').
 
-(* refuted by an id that path.Join cleans onto gc_worker's key ("x/../gc_worker", finite TTL) *)
-Theorem C15_gc_worker_always_infinite_refuted : ~ C15_gc_worker_always_infinite_full.
-Proof. exact gcw_refuted_pf. Qed.
+Theorem C15_gc_worker_always_infinite : C15_gc_worker_always_infinite_full.
+Proof. exact (fun st i ttl sp now st' r Hwf _ Hsp Hnow Hrun => gc_worker_always_infinite_pf st i ttl sp now st' r Hwf Hsp Hnow Hrun). Qed.
 
-(* established by every answered call whose id is stored under its own key, from any store ... *)
-Theorem C15_gc_worker_always_infinite_partial :
+(* every answered call establishes it from any store (e.g. one holding a finite gc_worker entry of an older version) ... *)
+Theorem C15_gc_worker_established :
   forall st i ttl sp now st' r, wf_svcs (svcs st) -> 0 <= sp -> now <= maxI64 ->
-    svc_update st i ttl sp now = (st', Some r) -> is_clean i = true -> gcw_ok (svcs st').
+    svc_update st i ttl sp now = (st', Some r) -> gcw_ok (svcs st').
 Proof. exact gc_worker_always_infinite_pf. Qed.
 
-(* ... and kept by every label of every history (failed calls, REST deletes, cluster safe point traffic) *)
-Theorem C15_gc_worker_stays_partial :
+(* ... and every label of every history keeps it (failed calls, REST deletes, cluster safe point traffic);
+   only a raw write behind the handlers' back (LSeed) is excluded *)
+Theorem C15_gc_worker_stays :
   forall ls s, wf_svcs (svcs (sto s)) -> gcw_ok (svcs (sto s)) ->
-    Forall (fun l => label_ok l /\ svc_clean l) ls -> gcw_ok (svcs (sto (exec step s ls))).
+    Forall (fun l => label_ok l /\ no_seed l) ls -> gcw_ok (svcs (sto (exec step s ls))).
 Proof. exact (gcw_stays_pf gc_locked). Qed.
+
+(* the old path-escaping inputs are refused and change nothing *)
+Example C15_old_path_escapes_now_refused :
+  let st := fst (svc_update (Store (GVal 30) []) IGcw maxI64 7 1700000000) in
+  svc_update st (IName 100 KGc) 0 0 1700000000 = (st, None)
+  /\ snd (svc_update st (IName 100 KGc) 1000 9 1700000000) = None
+  /\ gc (fst (svc_update st (IName 100 KGc) 1000 9 1700000000)) = GVal 30
+  /\ svc_update st (IName 101 (KSvc 0)) 0 8 1700000000 = (st, None)
+  /\ svc_update st (IName 101 (KSvc 0)) 1000 8 1700000000 = (st, None).
+Proof. exact escapes_now_refused. Qed.
 
 (* ---- clause 5: expired and non-positive-TTL registrations disappear ---- *)
 Theorem C15_expired_removed :
@@ -126,15 +123,15 @@ Theorem C15_nonpositive_ttl_removed :
     forall n, key_of i = KSvc n -> n <> 0 -> ttl <= 0 -> sv_get n (svcs st') = None.
 Proof. exact nonpositive_ttl_removed_pf. Qed.
 
-(* non-vacuity: a guarded history with two sequential updates, a fault, service registrations and reads *)
+(* non-vacuity: a history with sequential and blocked updates, a fault, service registrations and reads *)
 Example C15_nonvacuous :
-  let ls := [LLoad 0 5; LSave 0 Ok; LLoad 1 20; LSave 1 ErrApplied; LGet; LSvc IGcw maxI64 7 1700000000;
-             LSvc (IName 3 (KSvc 3)) 1000 9 1700000000; LLoad 0 10; LSave 0 Ok; LGet] in
-  guarded step safe_label init ls = true /\ Forall label_ok ls /\
+  let ls := [LLoad 0 5; LSave 0 Ok; LLoad 1 20; LLoad 2 30; LSave 1 ErrApplied; LGet; LSvc IGcw maxI64 7 1700000000;
+             LSvc (IName 3 (KSvc 3)) 1000 9 1700000000; LSvc (IName 100 KGc) 0 0 1700000000; LLoad 0 10; LSave 0 Ok; LGet] in
+  Forall label_ok ls /\
   map fst (resps (exec step init ls)) = [20; 20; 20; 5] /\
   map fst (svcs (sto (exec step init ls))) = [0; 3].
 Proof.
-  cbv zeta. split; [vm_compute; reflexivity|]. split; [|split; vm_compute; reflexivity].
+  cbv zeta. split; [|split; vm_compute; reflexivity].
   repeat constructor; vm_compute; discriminate.
 Qed.
 
@@ -151,20 +148,16 @@ Proof.
     intros Hk; inversion Hk; subst; cbn; split; intros; try discriminate; try reflexivity; lia.
 Qed.
 
-Print Assumptions C15_gc_safe_point_monotone_refuted.
-Print Assumptions C15_gc_safe_point_monotone_refuted_by_interleaving.
-Print Assumptions C15_gc_safe_point_monotone_refuted_by_path_escape.
-Print Assumptions C15_gc_safe_point_monotone_partial.
-Print Assumptions C15_gc_safe_point_monotone_with_mutex.
-Print Assumptions C15_response_ge_all_acknowledged_refuted.
-Print Assumptions C15_response_ge_all_acknowledged_partial.
-Print Assumptions C15_response_ge_all_acknowledged_with_mutex.
-Print Assumptions C15_acknowledged_le_stored_partial.
+Print Assumptions C15_gc_safe_point_monotone.
+Print Assumptions C15_response_ge_all_acknowledged.
+Print Assumptions C15_acknowledged_le_stored.
+Print Assumptions C15_without_mutex_refuted.
+Print Assumptions C15_without_mutex_partial.
 Print Assumptions C15_store_wellformed_always.
 Print Assumptions C15_min_le_every_live.
 Print Assumptions C15_below_min_not_recorded.
-Print Assumptions C15_gc_worker_always_infinite_refuted.
-Print Assumptions C15_gc_worker_always_infinite_partial.
-Print Assumptions C15_gc_worker_stays_partial.
+Print Assumptions C15_gc_worker_always_infinite.
+Print Assumptions C15_gc_worker_established.
+Print Assumptions C15_gc_worker_stays.
 Print Assumptions C15_expired_removed.
 Print Assumptions C15_nonpositive_ttl_removed.
